@@ -148,8 +148,8 @@ func kinds(thorough bool) []kindSpec {
 	var ks []kindSpec
 	// strings: 1..9 runes in four alphabets
 	var strs []reflect.Value
-	maxN := 9
-	wlo, whi := int64(-6), int64(9)
+	maxN := 12
+	wlo, whi := int64(-12), int64(16)
 	if thorough {
 		maxN, wlo, whi = 24, -40, 40
 	}
@@ -161,6 +161,10 @@ func kinds(thorough bool) []kindSpec {
 			s += mix[i%4]
 		}
 		strs = append(strs, rv(s))
+	}
+	// long strings around the sizes where byte-oriented shortcuts stop working (255/256/257 runes, 3- and 4-byte runes)
+	for _, n := range []int{255, 256, 257, 1000} {
+		strs = append(strs, rv(strings.Repeat("a", n)), rv(strings.Repeat("中", n)), rv(strings.Repeat("😀", n)))
 	}
 	// text that looks percent-encoded, or holds '+': its measure is its own rune count on every entry point
 	for _, x := range []string{"%41%42%43", "50%25off", "%E4%B8%AD", "100%", "1+1", "a%2Bb", "%%%", "%4", "+", "a+b+c+d"} {
@@ -345,14 +349,14 @@ func kinds(thorough bool) []kindSpec {
 func run(c *runner.Ctx) {
 	ks := kinds(c.Thorough())
 	var bounds1 []int
-	blo, bhi := -3, 6
+	blo, bhi := -5, 9
 	if c.Thorough() {
 		blo, bhi = -12, 20
 	}
 	for b := blo; b <= bhi; b++ {
 		bounds1 = append(bounds1, b)
 	}
-	bounds1 = append(bounds1, 127, 128, 255, 256, -128, -129, 9, 10, 24, 25, 40, 41)
+	bounds1 = append(bounds1, 127, 128, 255, 256, -128, -129, 9, 10, 24, 25, 40, 41, 254, 257, 258, 999, 1000, 1001, 765, 768, 1020, 1024)
 	// boundaries of the wider integer kinds (the bound is parsed as int: 64-bit here)
 	bounds1 = append(bounds1, 32767, 32768, -32768, -32769, 65535, 65536, math.MaxInt32, math.MaxInt32+1, math.MinInt32, math.MinInt32-1, 1<<53, 1<<53+1, math.MaxInt64, math.MaxInt64-1, math.MinInt64, math.MinInt64+1)
 	for _, r := range rules {
@@ -371,7 +375,8 @@ func run(c *runner.Ctx) {
 					}
 					bl = append(bl, [2]int{1, 127}, [2]int{1, 128}, [2]int{-128, 127}, [2]int{0, 255}, [2]int{1, 255}, [2]int{-129, 256},
 						[2]int{-32768, 32767}, [2]int{-32769, 32768}, [2]int{0, 65535}, [2]int{1, 65536}, [2]int{math.MinInt32, math.MaxInt32}, [2]int{1 << 53, 1<<53 + 1},
-						[2]int{math.MinInt64, math.MaxInt64}, [2]int{math.MinInt64 + 1, math.MaxInt64 - 1}, [2]int{8, 24}, [2]int{24, 25})
+						[2]int{math.MinInt64, math.MaxInt64}, [2]int{math.MinInt64 + 1, math.MaxInt64 - 1}, [2]int{8, 24}, [2]int{24, 25},
+						[2]int{255, 256}, [2]int{256, 257}, [2]int{256, 1000}, [2]int{257, 999}, [2]int{86, 255}, [2]int{1, 1023}, [2]int{1000, 1000}, [2]int{768, 3000}, [2]int{300, 1024})
 				} else {
 					for _, b := range bounds1 {
 						bl = append(bl, [2]int{b, b})
